@@ -96,7 +96,7 @@ Section G1.
                 else Some u)
             else Some u) (fun u =>
       if negb (is_nil (Hash u))
-      then bind (decodeEncode (trim_prefix1 35 (Hash u)) pes_Host) (SetHash idna_raw c u) else Some u))))).
+      then bind (decodeEncode (trim_prefix1 35 (Hash u)) pes_Host) (SetHash idna_raw c u) else SetHash idna_raw c u []))))).
   Proof.
     intros u Hw. apply tot_bind.
     { destruct (negb (is_nil (Hostname u)) && negb (IsIPv6 u)); [|apply tot_some; exact Hw].
@@ -111,7 +111,7 @@ Section G1.
       apply tot_bind; [apply reencode_params_tot; exact Hw|].
       clear u Hw. intros u Hw. destruct (negb (is_nil (Search u))); [|apply tot_some; exact Hw].
       apply tot_bind; [apply SetSearch_wf; exact Hw|apply reencode_params_tot]. }
-    clear u Hw. intros u Hw. destruct (negb (is_nil (Hash u))); [|apply tot_some; exact Hw].
+    clear u Hw. intros u Hw. destruct (negb (is_nil (Hash u))); [|apply SetHash_wf; exact Hw].
     rewrite decodeEncode_de. cbn [bind]. apply SetHash_wf. exact Hw.
   Qed.
 
@@ -540,7 +540,7 @@ Section Blocks.
                 else Some u)
             else Some u) (fun u =>
       if negb (is_nil (Hash u))
-      then bind (decodeEncode (trim_prefix1 35 (Hash u)) pes_Host) (SetHash idna_raw c u) else Some u))))
+      then bind (decodeEncode (trim_prefix1 35 (Hash u)) pes_Host) (SetHash idna_raw c u) else SetHash idna_raw c u []))))
     else Some u.
 
   Definition sort_block (u : url) : url :=
@@ -609,7 +609,7 @@ Section Blocks.
         intro N. rewrite N in ES. discriminate ES. }
       rewrite reencode_params_eq in E3. injection E3 as <-. apply A_reenc; [exact HR|]. exact HP5. }
     clear u2 HP2 E3.
-    destruct (negb (is_nil (Hash u3))); [|injection H as <-; exact HP3].
+    destruct (negb (is_nil (Hash u3))); [|apply (A_hash _ _ _ HP3 H)].
     rewrite decodeEncode_de in H. cbn [bind] in H. apply (A_hash _ _ _ HP3 H).
   Qed.
 
